@@ -109,3 +109,25 @@ def ws_padding(text: str, maxlen: int = 90):
     for w in WS_KINDS:
         for rep in (1, 2, 3):
             yield ("ws-every-gap", (w * rep).join(text))
+
+
+TOKENS = ["IBAN", "BBAN", "BIC", "SWIFT", "NONE", "NULL", "TRUE", "NAN", "INF", "TEST", "XXX", "0X1F",
+          "1E5", "1_0", "+1", "-1", "0O7", "0B1", "00", "99", "AA", "ZZ"]
+
+
+def token_overlays(base: str, rechecked_country: str | None = None):
+    """Every dictionary token laid over every offset of the base text (length preserved), for IBANs
+    also with check digits recomputed for the new body - strings that a 'helpful' normalisation or
+    a number parser might treat specially."""
+    n = len(base)
+    for tok in TOKENS:
+        for p in range(0, n - len(tok) + 1):
+            t = base[:p] + tok + base[p + len(tok):]
+            if t != base:
+                yield ("token:" + tok, t)
+                if rechecked_country and p >= 4:
+                    cd = ri.check_digits(rechecked_country, t[4:])
+                    if cd:
+                        yield ("token-rechecked:" + tok, rechecked_country + cd + t[4:])
+        yield ("token-prefixed:" + tok, tok + base)
+        yield ("token-prefixed:" + tok, tok + " " + base)
